@@ -200,7 +200,7 @@ func genDetFiles(rt *rapid.T) map[string]string {
 	files["bin.nw"] = RandomTree(tx, r, 2, true).Newick() + "\n"
 	rooted := RandomTree(tx, r, 3, true)
 	all := rooted.all()
-	files["rooted.nw"] = RootOnBranch(rooted, all[1+r.Intn(len(all)-1)]).Newick() + "\n"
+	files["rooted.nw"] = rootAtRandom(rooted, all, r).Newick() + "\n"
 	files["small.nw"] = RandomTree(tx[:4], r, 2, true).Newick() + "\n"
 	files["other.nw"] = "((o1:0.5,o2:0.25):0.125,o3:1);\n"
 	var nx strings.Builder
